@@ -276,6 +276,8 @@ def _responder_cases(same_spi=False):
         yield must_refuse('truncated-cookie', variant(req, cookies=[good[:-1]]))
         yield must_refuse('extended-cookie', variant(req, cookies=[good + b'\0']))
         yield must_refuse('empty-cookie', variant(req, cookies=[b'']))
+        for ln in (1, 63, 64):       # any size RFC 7296 allows for a cookie, none of them the right one
+            yield must_refuse('wrong-cookie-of-%d-octets' % ln, variant(req, cookies=[bytes([0x42]) * ln]))
         yield must_refuse('replayed-with-other-spi', variant(req, spi=b'\x66' * 8, cookies=[good]))
         yield must_refuse('replayed-with-other-nonce', variant(req, nonce_flip=True, cookies=[good]))
         yield must_refuse('replayed-from-other-address', variant(req, cookies=[good]), OTHER['addr'])
@@ -420,6 +422,38 @@ def initiator_cases():
         yield ('initiator:%s' % mode, v, 'completed' if not v else 'failed')
 
 
+def foreign_responder_cases():
+    """COOKIE challenges as a responder that is not pyikev2 sends them: responder SPI zero (RFC 7296 2.6 shows HDR(A,0)),
+    cookies of 1 to 64 octets.  The initiator repeats its request with that cookie first and completes normally."""
+    for spir in ('zero', 'set'):
+        for n in (1, 8, 32, 63, 64):
+            w = base_world()
+            w.step(('acquire', 'A', 0, 0))
+            first = w.net[0]
+            w.step(('drop', first.id))
+            cookie = bytes((7 * i + n) & 0xFF for i in range(n))
+            resp = F.clear(first.data[0:8], b'\0' * 8 if spir == 'zero' else b'\x5a' * 8, 34, 0x20, 0,
+                           [(F.NOTIFY, F.n_body(COOKIE, cookie))])
+            w.step(('inject', 'A', resp, SRC['b']))
+            v = []
+            retry = [d for d in w.step_emitted if d.sender == 'A']
+            want = variant(first.data, cookies=[cookie], strip_cookies=False)
+            if len(retry) != 1:
+                v.append(('foreign-cookie:no-retry', 'a COOKIE challenge with responder SPI %s and a %d-octet cookie: the initiator '
+                          'sent %d datagrams' % (spir, n, len(retry))))
+            elif retry[0].data != want:
+                v.append(('foreign-cookie:retry-differs', 'the retry is not the request with the %d-octet cookie placed first' % n))
+            guard = 0
+            while w.net and guard < 40:
+                guard += 1
+                w.step(('deliver', w.net[0].id))
+            a, b = w.endpoints['A'], w.endpoints['B']
+            if not v and not (P.established_pairs(a) and P.established_pairs(a) <= P.established_pairs(b)):
+                v.append(('foreign-cookie:does-not-complete', 'after the COOKIE challenge (SPIr %s, %d octets) the handshake does '
+                          'not complete' % (spir, n)))
+            yield ('initiator:foreign-responder:spir-%s:cookie-%d' % (spir, n), v, 'completed' if not v else 'failed')
+
+
 def replay(path):
     doc = jdec(json.load(open(path)))
     want = doc['label']
@@ -431,7 +465,7 @@ def replay(path):
     same = 'same-spi-fill:' in want
     est = 'established-first:' in want
     bare = want.split(':', 1)[1].replace('same-spi-fill:', '').replace('established-first:', '')
-    for label, v, outcome in list(responder_cases(same_spi=same, established=est)) + list(initiator_cases()):
+    for label, v, outcome in list(responder_cases(same_spi=same, established=est)) + list(initiator_cases()) + list(foreign_responder_cases()):
         if label == bare:
             res += v
     for r in res:
@@ -457,6 +491,7 @@ def main():
         runs += [('v%d:same-spi-fill:%s' % (fam, l), v, o) for l, v, o in responder_cases(same_spi=True) if 'threshold' in l or 'no-cookie' in l]
         runs += [('v%d:established-first:%s' % (fam, l), v, o) for l, v, o in responder_cases(established=True)]
         runs += [('v%d:%s' % (fam, l), v, o) for l, v, o in initiator_cases()]
+        runs += [('v%d:%s' % (fam, l), v, o) for l, v, o in foreign_responder_cases()]
     FAMILY['v'] = 4
     for label, v, outcome in runs:
         n += 1
